@@ -234,13 +234,13 @@ fn date_dur() -> BoxedStrategy<Dur> {
         .boxed()
 }
 
-fn add_case() -> BoxedStrategy<AddCase> {
+pub fn add_case() -> BoxedStrategy<AddCase> {
     (gen::day(), date_dur(), prop::bool::ANY, prop::bool::weighted(0.3)).prop_map(|(day, dur, reject, subtract)| AddCase { day, dur, reject, subtract }).boxed()
 }
-fn diff_case() -> BoxedStrategy<DiffCase> {
+pub fn diff_case() -> BoxedStrategy<DiffCase> {
     (gen::day_pair(), gen::unit_in(0, 3)).prop_map(|((a, b), largest)| DiffCase { a, b, largest }).boxed()
 }
-fn mirror_case() -> BoxedStrategy<MirrorCase> {
+pub fn mirror_case() -> BoxedStrategy<MirrorCase> {
     (gen::day_pair(), gen::unit_in(0, 3), gen::unit_in(0, 3), proptest::sample::select(vec![1u32, 2, 3, 5, 7, 10]), gen::mode())
         .prop_map(|((a, b), u1, u2, inc, mode)| {
             let (largest, smallest) = if u1.idx() <= u2.idx() { (u1, u2) } else { (u2, u1) };
